@@ -6,7 +6,8 @@ LEVEL = 'exploration'
 SHARDS = {'quick': 4, 'thorough': 16}
 BUDGET = {'quick': 80, 'thorough': 900}
 TECHNIQUE = 'runtime monitoring at the client boundary: inspect.signature vs. the three sigtools retrievals and the Sphinx hook on every callable of a large real-world corpus (never executed), generated adversarial sources and generated forwarding programs'
-RULE = ('every function, class, method, partial and callable instance found one level deep (module members and members of classes '
+RULE = ('(also: forwarding functions with up to three named parameters of their own, drawn by kind profile; an earlier same-named definition in the same file that was already inspected) '
+        'every function, class, method, partial and callable instance found one level deep (module members and members of classes '
         'defined there) in the importable standard library and the packages installed beside the repository (quick: a fixed core + '
         'a seeded third of ~1300 modules; thorough: all), ~60 adversarial sources (partials of forwarding functions with arguments the callee cannot take, bodies building partial(*args, **kwargs), unhashable callables, unevaluable postponed annotations, async, generators, walrus, match, comprehensions, '
         'starred calls, global/nonlocal, class bodies, decorators, lambdas sharing a line or sitting in a literal, PEP 695 syntax, '
